@@ -10,10 +10,10 @@ import (
 	"path/filepath"
 	"strings"
 	"sync"
-	"sync/atomic"
 	"syscall"
 	"time"
 
+	"verif/pbt"
 	"verif/xp"
 )
 
@@ -51,19 +51,8 @@ type Exec struct {
 	dead   *Death
 }
 
-var workSeq int64
-
-// WorkDir returns a fresh scratch directory under $VERIF_WORK (removed by
-// the driver) or the system temp dir.
-func WorkDir(prefix string) string {
-	base := os.Getenv("VERIF_WORK")
-	if base == "" {
-		base = filepath.Join(os.TempDir(), fmt.Sprintf("verif-work-%d", os.Getpid()))
-	}
-	d := filepath.Join(base, fmt.Sprintf("%s-%d-%d", prefix, os.Getpid(), atomic.AddInt64(&workSeq, 1)))
-	os.MkdirAll(d, 0o755)
-	return d
-}
+// WorkDir returns a fresh scratch directory (removed before the next case).
+func WorkDir(prefix string) string { return pbt.WorkDir(prefix) }
 
 func execPath(name string) string {
 	if b := os.Getenv("VERIF_BIN"); b != "" {
